@@ -141,10 +141,16 @@ fn image_after_drop<T>(v: T) -> Vec<u8> {
     }
 }
 
+/// a Debug impl can branch on the formatter's flags: plain, pretty (`dbg!`), hex, sign, width/precision
+fn dbg_text<T: Debug>(v: &T) -> String {
+    format!("{:?}\n--\n{:#?}\n--\n{:x?}\n--\n{:+?}\n--\n{:012.3?}\n--\n{:<#20X?}", v, v, v, v, v, v)
+}
+
 fn dbg_info<T: Debug + AlgorithmName>(v: &T) -> DebugInfo {
     DebugInfo {
         ty: core::any::type_name::<T>().to_string(),
-        text: format!("{:?}", v),
+        // a Debug impl can branch on the formatter's flags: plain, pretty (`dbg!`), hex, sign, width/precision
+        text: dbg_text(v),
         alg: alg_name::<T>(),
     }
 }
@@ -773,7 +779,7 @@ where
     fn debug(&self) -> Option<DebugInfo> {
         Some(DebugInfo {
             ty: core::any::type_name::<cipher::StreamCipherCoreWrapper<K>>().to_string(),
-            text: format!("{:?}", self.0),
+            text: dbg_text(&self.0),
             alg: alg_name::<K>(),
         })
     }
